@@ -120,7 +120,7 @@ func (encr *EncrAesCbcCrypto) Encrypt(plainText []byte) ([]byte, error) {
 
 func (encr *EncrAesCbcCrypto) Decrypt(cipherText []byte) ([]byte, error) {
 	// Check
-	if len(cipherText) < aes.BlockSize {
+	if len(cipherText) < 2*aes.BlockSize {
 		return nil, errors.Errorf("EncrAesCbcCrypto: Length of cipher text is too short to decrypt")
 	}
 
@@ -147,6 +147,9 @@ func (encr *EncrAesCbcCrypto) Decrypt(cipherText []byte) ([]byte, error) {
 	// fmt.Printf("Decrypted content:\n%s", hex.Dump(plainText))
 	// Remove padding
 	padding := int(plainText[len(plainText)-1]) + 1
+	if padding > len(plainText) {
+		return nil, errors.Errorf("EncrAesCbcCrypto: Padding length exceeds the length of decrypted text")
+	}
 	plainText = plainText[:len(plainText)-padding]
 
 	// fmt.Printf("Decrypted content with out padding:\n%s", hex.Dump(plainText))
